@@ -202,10 +202,11 @@ TraverseProps(cfg, in, h) ==
 TraverseBinding(cfg, in, h) ==
   \A i \in DOMAIN h.calls :
      LET c == h.calls[i] IN
-     /\ c.f = 1 /\ i <= Len(cfg.elems)
-     /\ (i = in.fail) <=> (c.err # 0)
-     /\ c.err # 0 => (c.err = cfg.errs[i] /\ c.res = <<cfg.parts[i]>>)
-     /\ c.err = 0 => c.res = <<cfg.outs[i]>>
+     /\ c.f = 1
+     /\ i <= Len(cfg.elems) =>
+          /\ (i = in.fail) <=> (c.err # 0)
+          /\ c.err # 0 => (c.err = cfg.errs[i] /\ c.res = <<cfg.parts[i]>>)
+          /\ c.err = 0 => c.res = <<cfg.outs[i]>>
 
 -----------------------------------------------------------------------------
 (***************************************************************************)
@@ -425,6 +426,8 @@ MemStepProps(cfg, in, h, j) ==
    <<"the memoized function returns something else than f for these arguments", st.ret = cfg.F[c]>>,
    <<"f is invoked more than once for Equal arguments",
        Len(st.calls) <= 1 /\ (st.calls # <<>> => c \notin InvokedBefore(cfg, in, h, j))>>,
+   <<"f is not invoked although no Equal arguments were evaluated before (the results cannot be f's)",
+       (cfg.r > 0 /\ c \notin InvokedBefore(cfg, in, h, j)) => st.calls # <<>> >>,
    <<"f is invoked with other arguments than the memoized function received",
        \A i \in DOMAIN st.calls : st.calls[i].args = cfg.A[c]>> }
 
